@@ -53,6 +53,9 @@ func (m *Model) UpdateConsumable(consumable *traits.Consumable, opts ...resource
 	if consumable.GetName() == "" { // (getter: a caller may hand in no consumable at all)
 		return nil, status.Error(codes.NotFound, "name not specified")
 	}
+	// the name is part of every write, whatever the update mask says: a consumable created by this call
+	// (create-if-absent) from the masked fields alone would be filed under its key with an empty Name of its own
+	opts = append(opts[:len(opts):len(opts)], resource.WithMoreUpdatePaths("name"))
 	msg, err := m.consumables.Update(consumable.Name, consumable, opts...)
 	return castConsumable(msg, err)
 }
@@ -142,6 +145,8 @@ func (m *Model) UpdateStock(stock *traits.Consumable_Stock, opts ...resource.Wri
 	if stock.GetConsumable() == "" { // (getter: a request may leave the stock out altogether)
 		return nil, status.Error(codes.NotFound, "consumable not specified")
 	}
+	// (as for consumables: the key is part of every write)
+	opts = append(opts[:len(opts):len(opts)], resource.WithMoreUpdatePaths("consumable"))
 	msg, err := m.inventory.Update(stock.Consumable, stock, opts...)
 	return castStock(msg, err)
 }
